@@ -25,24 +25,26 @@ def run(tier):
     json.dump(tables, open(tf, "w"))
     # all 2-way and 3-way splits, every interface
     l2, l3, l2h = (700, 260, 300) if thorough else (300, 140, 140)
-    binp = build_harness("stable")
     nproc = min(14, NCPU)
-    procs = []
-    for k in range(nproc):
-        o = os.path.join(wd, "splits.%d.json" % k)
-        procs.append((o, subprocess.Popen([binp, "inc-splits", tf, o, str(ck.seed), str(l2), str(l3), str(l2h), str(k), str(nproc)],
-                                          stdout=subprocess.PIPE, stderr=subprocess.STDOUT, text=True)))
-    for o, p in procs:
-        out, _ = p.communicate(timeout=3400)
-        if p.returncode != 0:
-            raise ToolError("inc-splits failed:\n%s" % out[-2000:])
-        rep = json.load(open(o))
-        ndrift = sum(v for k, v in rep["counters"].items() if k.startswith("fail:") and "DRIFT" in k)
-        if ndrift:
-            ck.cov["model_drift_splits"] = ck.cov.get("model_drift_splits", 0) + ndrift
-        rep["failures"] = [f for f in rep["failures"] if "DRIFT" not in f["key"]]
-        rep["nfail"] -= ndrift
-        ck.add_report(rep)
+    # ... under the default build, and (smaller bounds) under the optimised profile
+    for cfg, (b2, b3, b2h) in [("stable", (l2, l3, l2h)), (RELEASE, (160, 70, 80))]:
+        binp = build_harness(cfg)
+        procs = []
+        for k in range(nproc):
+            o = os.path.join(wd, "splits_%s.%d.json" % (cfg, k))
+            procs.append((o, subprocess.Popen([binp, "inc-splits", tf, o, str(ck.seed), str(b2), str(b3), str(b2h), str(k), str(nproc)],
+                                              stdout=subprocess.PIPE, stderr=subprocess.STDOUT, text=True)))
+        for o, p in procs:
+            out, _ = p.communicate(timeout=3400)
+            if p.returncode != 0:
+                raise ToolError("inc-splits failed:\n%s" % out[-2000:])
+            rep = json.load(open(o))
+            ndrift = sum(v for k, v in rep["counters"].items() if k.startswith("fail:") and "DRIFT" in k)
+            if ndrift:
+                ck.cov["model_drift_splits"] = ck.cov.get("model_drift_splits", 0) + ndrift
+            rep["failures"] = [f for f in rep["failures"] if "DRIFT" not in f["key"]]
+            rep["nfail"] -= ndrift
+            ck.add_report(rep, prefix="" if cfg == "stable" else "[%s] " % cfg)
     if ck.cov.get("model_drift_splits"):
         print("WARNING C08: in %d chunkings the code's buffer fill differs from IncHash.tla although the results agree - the buffering model no longer describes the code; update the specification" % ck.cov["model_drift_splits"])
     nsplits = ck.cov["evaluations"]
